@@ -24,6 +24,10 @@ func genC05(r *rand.Rand, n int, emit func(string)) {
 		case i%10 == 8:
 			// deep nesting
 			d := 20 + r.Intn(180)
+			if r.Intn(12) == 0 {
+				// around the transformer's bound on nesting
+				d = pick(r, []int{9999, 10000, 10001, 10002})
+			}
 			open, cl := "[", "]"
 			if r.Intn(2) == 0 {
 				open, cl = "{\"a\":", "}"
